@@ -321,6 +321,26 @@ for pkg in PKGS:
     for t, a in cases:
         out.append('//@   ensures [C08.only-the-senders-slot-of-that-type-changes] forall k in 0..len(p.temp.%s) :: (p.temp.%s[k] != old(p.temp.%s[k]) ==> (k == %s && %s && p.temp.%s[k] == msg))' % (a, a, a, idx, T(t), a))
     out.append('')
+    # ---- the update entry points: the engine's lock discipline seen from the API (C09) ----
+    mods = 'plocked(p), curround(p), allghost("proceedok"), allghost("rstarted")'
+    out += [
+        '//@ func (*LocalParty).Update',
+        '//@   props C09 C06',
+        '//@   requires p != nil',
+        '//@   requires [sender-id-wellformed] !isnil(msg) ==> (msgfrom(msg) != nil ==> msgfrom(msg).MessageWrapper_PartyID != nil)',
+        '//@   requires [C09.not-reentrant] !plocked(p)',
+        '//@   modifies ' + mods,
+        '//@   ensures [C09.unlocked-on-every-return] !plocked(p)',
+        '',
+        '//@ func (*LocalParty).UpdateFromBytes',
+        '//@   props C09 C06',
+        '//@   requires p != nil && p.BaseParty != nil',
+        '//@   requires [sender-known] from != nil && from.MessageWrapper_PartyID != nil',
+        '//@   requires [C09.not-reentrant] !plocked(p)',
+        '//@   modifies ' + mods,
+        '//@   ensures [C09.unlocked-on-every-return] !plocked(p)',
+        '',
+    ]
     if out:
         path = os.path.join(d, 'zz_contracts_proto_verif.go')
         with open(path, 'w') as fh:
